@@ -339,6 +339,9 @@ pub fn worker_main(p: &dyn Property, a: WorkerArgs) -> i32 {
                 json!({"index": i, "case_seed": cs, "case": out.refined.as_ref().unwrap_or(&case), "violation": out.violation})
             ));
         }
+        for (v, c) in &out.more {
+            out_line(&format!("V {}", json!({"index": i, "case_seed": cs, "case": c, "violation": v})));
+        }
         out_line(&format!("E {}", i));
         since_flush += 1;
         if since_flush >= 500 || fatal || out.violation.is_some() {
@@ -623,7 +626,10 @@ pub fn sweep(p: &dyn Property, a: &CheckArgs, emit_logs: bool) -> SweepResult {
     }
     let mut live = n;
     let mut killing = false;
-    let max_violations = 40;
+    let max_violations = if std::env::var("VERIF_NO_CAP").is_ok() { usize::MAX } else { 40 };
+    let known_classes: HashSet<String> =
+        load_known_findings().into_iter().filter(|k| k.property == p.id()).map(|k| k.class).collect();
+    let unknown = |raw: &Vec<RawViolation>| raw.iter().filter(|v| !known_classes.contains(&v.class)).count();
     while live > 0 {
         let m = match rx.recv() {
             Ok(m) => m,
@@ -705,7 +711,7 @@ pub fn sweep(p: &dyn Property, a: &CheckArgs, emit_logs: bool) -> SweepResult {
                 }
                 ws[s].in_flight = None;
                 let next_index = s as u64 + ws[s].done * n as u64;
-                if next_index >= cases || res.raw.len() >= max_violations {
+                if next_index >= cases || unknown(&res.raw) >= max_violations {
                     live -= 1;
                     continue;
                 }
@@ -719,7 +725,7 @@ pub fn sweep(p: &dyn Property, a: &CheckArgs, emit_logs: bool) -> SweepResult {
                 }
             }
         }
-        if res.raw.len() >= max_violations && !killing {
+        if unknown(&res.raw) >= max_violations && !killing {
             killing = true;
             for w in ws.iter_mut() {
                 let _ = w.child.kill();
@@ -857,7 +863,7 @@ pub fn check_main(p: &dyn Property, a: CheckArgs) -> i32 {
         };
         let fin = exec_isolated(p, &mcase, a.tier);
         let (mcase, fin) = if fin.class().as_deref() == Some(class.as_str()) { (mcase, fin) } else { (case, first) };
-        let path = replay_dir.join(format!("{}-{}.json", p.id(), v.case_seed));
+        let path = replay_dir.join(format!("{}-{}-{:08x}.json", p.id(), v.case_seed, fnv1a(class.as_bytes()) as u32));
         let doc = json!({
             "property": p.id(),
             "root_seed": a.root_seed,
